@@ -119,7 +119,7 @@ class GdbRunner:
         cur = [conns.index(k.current_connection)] if k.current_connection is not None else []
         allm = []
         for m in k.all_messages:
-            ci = conns.index(m.obj.connection) if m.obj.connection in conns else -1
+            ci = implsession.conn_index_of(conns, m)
             allm.append([ci, implsession.canon_msg(m)])
         implenv.set_color(False)
         return [[implsession.canon_conn(c) for c in conns], str(k.display_matcher), str(k.stop_matcher), cur, allm,
